@@ -279,6 +279,42 @@ func runC11(r *Run) {
 			}
 		}
 		sort.Strings(missing)
+		// accessor ↔ formatter pairing: what is read from the reflect.Value is what gets formatted
+		pairs := map[string][]string{
+			"(reflect.Value).Int":   {"strconv.Itoa", "strconv.FormatInt"},
+			"(reflect.Value).Uint":  {"strconv.FormatUint"},
+			"(reflect.Value).Float": {"strconv.FormatFloat"},
+		}
+		for acc, fmts := range pairs {
+			for _, c := range callsMatching(cl, false, nameIs(acc)) {
+				okPair := false
+				var used string
+				for _, ref := range *c.Value().Referrers() {
+					// the accessor result (possibly through a same-signedness conversion) feeds one of the allowed formatters
+					vals := []ssa.Value{c.Value()}
+					if cv, ok := ref.(*ssa.Convert); ok {
+						vals = append(vals, cv)
+					}
+					for _, v := range vals {
+						if v.Referrers() == nil {
+							continue
+						}
+						for _, r2 := range *v.Referrers() {
+							if fc, ok := r2.(*ssa.Call); ok {
+								used = calleeName(&fc.Call)
+								for _, want := range fmts {
+									if used == want {
+										okPair = true
+									}
+								}
+							}
+						}
+					}
+				}
+				r.check(okPair, "SetValWithStruct:"+acc+"↔formatter", r.pos(c.Instr), acc+" feeds "+strings.Join(fmts, "/"),
+					"the value read with "+acc+" is formatted with "+used+": values outside the other type's range are sent wrong (e.g. uint64 above MaxInt64 as a negative number)")
+			}
+		}
 		r.check(len(missing) == 0, "SetValWithStruct:kinds", r.fpos(cl), fmt.Sprintf("%d kinds handled, all 16 of the domain present", len(kinds)), "fields of kind "+strings.Join(missing, ", ")+" are silently not sent by the client")
 	})
 
